@@ -830,15 +830,27 @@ impl<B: BitmapSlice> Bytes<usize> for VolatileSlice<'_, B> {
     }
 
     fn store<T: AtomicAccess>(&self, val: T, addr: usize, order: Ordering) -> Result<()> {
-        self.get_atomic_ref::<T::A>(addr).map(|r| {
-            r.store(val.into(), order);
-            self.bitmap.mark_dirty(addr, size_of::<T>())
-        })
+        let slice = self.get_slice(addr, size_of::<T::A>())?;
+        slice.check_alignment(align_of::<T::A>())?;
+        // Access the memory through a pointer guard, so that memory which is only mapped on
+        // demand (Xen grant regions) is mapped for the duration of the access.
+        let guard = slice.ptr_guard_mut();
+        // SAFETY: the bounds and the alignment were checked above, and the guard keeps the
+        // mapping alive until the end of this function.
+        let r = unsafe { &*(guard.as_ptr() as *const T::A) };
+        r.store(val.into(), order);
+        self.bitmap.mark_dirty(addr, size_of::<T>());
+        Ok(())
     }
 
     fn load<T: AtomicAccess>(&self, addr: usize, order: Ordering) -> Result<T> {
-        self.get_atomic_ref::<T::A>(addr)
-            .map(|r| r.load(order).into())
+        let slice = self.get_slice(addr, size_of::<T::A>())?;
+        slice.check_alignment(align_of::<T::A>())?;
+        let guard = slice.ptr_guard();
+        // SAFETY: the bounds and the alignment were checked above, and the guard keeps the
+        // mapping alive until the end of this function.
+        let r = unsafe { &*(guard.as_ptr() as *const T::A) };
+        Ok(r.load(order).into())
     }
 }
 
